@@ -416,7 +416,18 @@ func runCase(c *Case, d *driver, opts runOpts) (res caseResult) {
 					continue
 				}
 				row := &post.Screens[b].Rows[y]
-				if got := fmt.Sprintf("%d:%s", row.Cached, runsStr(row.Runs)); got != want {
+				wantANSI := ""
+				if k := strings.IndexByte(want, ' '); k >= 0 {
+					want, wantANSI = want[:k], want[k+1:]
+				}
+				got := fmt.Sprintf("%d:%s", row.Cached, runsStr(row.Runs))
+				if act := b2i(post.OnAlt); got == want && wantANSI != "" && b == act {
+					// ANSILine(y) of the real span buffer, byte for byte (the escape in front of every run)
+					if a := hexOrDash([]byte(im.vt.Terminal().ANSILine(y))); a != wantANSI {
+						got, want = got+" ANSILine "+a, want+" ANSILine "+wantANSI
+					}
+				}
+				if got != want {
 					addF(finding{Step: step, Kind: "diverge", Clause: "S", Tags: *tags,
 						Detail: fmt.Sprintf("stored runs of row %d of buffer %d: impl[%s] model[%s]", y, b, got, want)})
 					sOff = true
